@@ -19,7 +19,7 @@ if [ -f $src/patch.ported.diff ] && git -C $wt apply $src/patch.ported.diff 2>/d
   base="HEAD (patch.ported.diff)"
 elif ! git -C $wt apply $src/patch.diff 2>/dev/null && ! git -C $wt apply -3 $src/patch.diff 2>/dev/null; then
   # a later fix: commit rewrote the same lines: the change is kept against the tree it was written for
-  (cd $wt && git checkout -q -- . 2>/dev/null)
+  (cd $wt && git reset -q --hard 2>/dev/null)
   for b in ${BASES:-61a521a 54b0103}; do
     git -C $wt checkout -q --detach $b 2>/dev/null || continue
     if git -C $wt apply $src/patch.diff 2>/dev/null; then base=$b; break; fi
